@@ -91,6 +91,20 @@ def _drive_ipm(args):
                 if not any(k.startswith('PDS') for k in m):
                     m['PDS0158'] = 'ABC 123'
             msgs.append(m)
+        if cid % 4 == 1:
+            # a first record that ends exactly on a 1012-byte payload boundary (4 + L = 1012 k)
+            k = (1, 2, 3)[(cid // 4) % 3]
+            m0 = {'MTI': '1240', 'DE3': '123456'}
+            want = 1012 * k - 4
+            for de in ('DE72', 'DE127', 'DE111'):
+                left = want - len(isoc.iso8583.dumps(dict(m0), encoding=a))
+                if left >= 4:
+                    m0[de] = ('%s boundary ' % de * 100)[:min(999, left - 3)]
+            left = want - len(isoc.iso8583.dumps(dict(m0), encoding=a))
+            if left >= 3:
+                m0['DE2'] = '5' * (left - 2)
+            msgs.insert(0, m0)
+            n += 1
         src = ipmc.write_file(msgs, a, bc, fi == '1014')
         rc = reader_config(tool)
         res = {'cid': cid, 'tool': tool, 'a': a, 'b': b, 'fi': fi, 'fo': fo, 'viol': [],
